@@ -348,6 +348,32 @@ theorem minInit_generated (e : Env K) (wt hh : Cell → Cell → K) (hx : e.ops 
   unfold readAcc accVars
   ksimp [minCostInit, minCostRowMajor]
 
+/-- the variables of one scan iteration from the three result variables -/
+def minEnvT (st : St K) (t : NV K × NV K × NV K) (c : Cell) : String → NV K :=
+  envOf [("best_y", t.1), ("best_x", t.2.1), ("min_cost", t.2.2),
+         ("i", some (c.1 : K)), ("j", some (c.2 : K)), ("open@c", b2n (st.isOpen c)), ("f@c", some (st.f c))]
+
+/-- one generated scan iteration, on the three result variables -/
+def genMinStep (st : St K) (t : NV K × NV K × NV K) (c : Cell) : NV K × NV K × NV K :=
+  readAcc (minCostBody.exec (fun _ _ _ => none) (fun _ => []) ⟨minEnvT st t c, none, false, none⟩).env
+
+theorem minEnv_eq (st : St K) (acc : Option Cell × K) (c : Cell) : minEnv st acc c = minEnvT st (accVars acc) c := rfl
+
+/-- **the whole scan of `_min_cost_pixel_id`**: running the generated loop body over the cells in row-major
+    order from the generated initialisation leaves in `(best_y, best_x)` what `minCostOpen` returns -/
+theorem minScan_generated (e : Env K) (wt hh : Cell → Cell → K) (hx : e.ops = fieldOps wt hh) (st : St K) (cs : List Cell)
+    (acc : Option Cell × K) :
+    cs.foldl (genMinStep st) (accVars acc) = accVars (cs.foldl (minStep e st) acc) := by
+  induction cs generalizing acc with
+  | nil => rfl
+  | cons c t ih =>
+    simp only [List.foldl_cons]
+    have h := (minStep_generated e wt hh hx st acc c).1
+    rw [minEnv_eq] at h
+    have : genMinStep st (accVars acc) c = accVars (minStep e st acc c) := h
+    rw [this]
+    exact ih _
+
 /-! ### `_is_not_crossable` -/
 
 /-- exact values as the proof-side numbers: NaN is `none`; the infinities have no counterpart -/
